@@ -109,7 +109,10 @@ def run_check(prop, tier, repo_dir, tag):
     cp = subprocess.run([str(V / "check"), prop, "--tier", tier], cwd=V, env=env, stdout=subprocess.PIPE, stderr=subprocess.STDOUT, timeout=14400)
     out = cp.stdout.decode()
     sigs = [l.strip()[:160] for l in out.splitlines() if l.strip().startswith("signature=")]
-    return cp.returncode, sigs, round(time.time() - t0, 1)
+    rc = cp.returncode
+    if rc == 1 and f"VIOLATION property={prop}" not in out:
+        rc = 3  # exit 1 without a VIOLATION line is a crash of the machinery, not a catch
+    return rc, sigs, round(time.time() - t0, 1)
 
 
 def run(args):
